@@ -338,6 +338,23 @@ func c05Build(env *core.Env) *c05Pool {
 			}
 		}
 	}
+	// dateTime / instant elements finer than a millisecond, before and after the Unix epoch: the value is the element's
+	// value cut to the millisecond (the comparison model knows milliseconds)
+	for _, c := range []struct {
+		lit string
+		us  int64
+	}{{"@1969-12-31T23:59:59.999Z", -500}, {"@1969-12-31T23:59:59.999Z", -1}, {"@1969-12-31T23:59:59.998Z", -1001}, {"@1970-01-01T00:00:00.000Z", 999}, {"@1970-01-01T00:00:00.001Z", 1500}, {"@1969-12-31T23:59:58.123Z", -1876400}, {"@1960-06-15T12:00:00.000Z", -301233599999001}} {
+		m, ok := model.ParseLiteral(c.lit)
+		if !ok {
+			continue
+		}
+		if rl := fx.E(env, c.lit); rl.IsValue() && len(rl.Raw) == 1 {
+			p.vals = append(p.vals, c05Val{c.lit, "sys", m})
+			p.runtime = append(p.runtime, rl.Raw[0])
+		}
+		p.vals = append(p.vals, c05Val{c.lit, "fhir", m}, c05Val{c.lit, "fhir", m}, c05Val{c.lit, "fhir", m})
+		p.runtime = append(p.runtime, &dtpb.DateTime{ValueUs: c.us, Timezone: "Z", Precision: dtpb.DateTime_MICROSECOND}, &dtpb.Instant{ValueUs: c.us, Timezone: "Z", Precision: dtpb.Instant_MICROSECOND}, &dtpb.DateTime{ValueUs: c.us, Timezone: "Z"})
+	}
 	// complex elements: two structurally equal objects, one different
 	hn := func(f string) *dtpb.HumanName { return &dtpb.HumanName{Family: &dtpb.String{Value: f}} }
 	for _, c := range []struct {
